@@ -128,6 +128,45 @@ Proof.
   intros i j Hi Hj. rewrite (G1 i j Hi Hj), (G2 i j Hi Hj). cbv zeta. rewrite <- Ewl, <- Ez.
   apply lsum_perm; [exact Sring|]. apply Permutation_map. exact Hperm.
 Qed.
+
+(* scale covariance: multiplying every sample of every field by a constant multiplies every sample of the
+   propagated Wavefront.field by that constant (no absolute scale enters anywhere) *)
+Lemma lsum_map_scale_l {A} (c : S) (t : A -> S) l :
+  lsum S (map (fun f => (c * t f)%K) l) = (c * lsum S (map t l))%K.
+Proof. induction l as [|x l IH]; cbn [map]; [unfold lsum; cbn; ring|]. rewrite !(lsum_cons S), IH. ring. Qed.
+
+Theorem propagate_dft_scale_covariant shift_of (c : S) (w1 w2 : wavefront S) dur duc shape pshape os mask dxr dxc Sr Sc Pr Pc b :
+  wdata w2 = map (fscale c) (wdata w1) ->
+  (forall f, In f (wdata w1) -> shift_of (fscale c f) = shift_of f) ->
+  wwl w1 = wwl w2 -> wfocal w1 = wfocal w2 -> wshape w1 = wshape w2 ->
+  wptype w1 <> PtNone -> wptype w2 <> PtNone -> wps w1 = Some (dxr, dxc) -> wps w2 = Some (dxr, dxc) ->
+  (forall f, In f (wdata w1) -> exists a, fd f = D2 a) ->
+  match shape with None => wshape w1 | Some s => s end = (Sr, Sc) ->
+  match pshape with None => (Sr, Sc) | Some p => p end = (Pr, Pc) ->
+  0 < Sr -> 0 < Sc -> 0 < Pr -> 0 < Pc -> 1 <= os ->
+  (forall m, mask = Some m -> mnr m = Sr * os /\ mnc m = Sc * os) ->
+  mask_bbox mask (Sr * os) (Sc * os) = Ok b ->
+  exists w1' w2' o1 o2,
+    propagate_dft sq shift_of w1 dur duc shape pshape os mask = Ok w1' /\ wfield w1' = Ok o1 /\
+    propagate_dft sq shift_of w2 dur duc shape pshape os mask = Ok w2' /\ wfield w2' = Ok o2 /\
+    (forall i j, 0 <= i < Sr * os -> 0 <= j < Sc * os -> get o2 i j = (c * get o1 i j)%K).
+Proof.
+  intros Hdat Hsh Ewl Ez Esh Hp1 Hp2 Hs1 Hs2 Hd Hshape Hpshape HSr HSc HPr HPc Hos Hm Hb.
+  assert (Hd2 : forall f, In f (wdata w2) -> exists a, fd f = D2 a).
+  { intros f Hf. rewrite Hdat in Hf. apply in_map_iff in Hf. destruct Hf as (g & <- & Hg).
+    destruct (Hd g Hg) as [a Ha]. unfold fscale. rewrite Ha. cbn [fd]. eexists; reflexivity. }
+  assert (Hshape2 : match shape with None => wshape w2 | Some s => s end = (Sr, Sc)) by (rewrite <- Esh; exact Hshape).
+  destruct (propagate_dft_chips S Sring Skernel sq shift_of w1 dur duc shape pshape os mask dxr dxc Sr Sc Pr Pc b
+              Hp1 Hs1 Hd Hshape Hpshape HSr HSc HPr HPc Hos Hm Hb) as (w1' & o1 & A1 & _ & B1 & _ & _ & G1).
+  destruct (propagate_dft_chips S Sring Skernel sq shift_of w2 dur duc shape pshape os mask dxr dxc Sr Sc Pr Pc b
+              Hp2 Hs2 Hd2 Hshape2 Hpshape HSr HSc HPr HPc Hos Hm Hb) as (w2' & o2 & A2 & _ & B2 & _ & _ & G2).
+  exists w1', w2', o1, o2. repeat (split; [assumption|]).
+  intros i j Hi Hj. rewrite (G1 i j Hi Hj), (G2 i j Hi Hj). cbv zeta. rewrite <- Ewl, <- Ez, Hdat, map_map.
+  rewrite <- lsum_map_scale_l. apply (lsum_map_ext S). intros f Hf.
+  rewrite (Hsh f Hf). destruct (Hd f Hf) as [a Ha]. unfold fscale at 1 2 3. rewrite Ha. cbn [fd offr offc].
+  destruct (inE b i j && _); [|ring].
+  rewrite (fourier_sum_scale S Sring a c). ring.
+Qed.
 End InsertP.
 
 (* the forms quoted in Properties/C02.v, with the definitions of Proofs/ unfolded *)
